@@ -15,11 +15,11 @@ def st(fn, props, sub, replace=(), loops=None, **kw):
 
 
 BODY = 'per call: bytes delivered to the body sink == bytes consumed == -delta(bytes owed) == delta(message length) == delta(stream offset); the delivered range is exactly [read, read+n) of the chunk; body ends exactly when nothing is owed; DATA only with the chunk exhausted'
-st('htp_connp_RES_BODY_CHUNKED_DATA', ['C06', 'C09', 'C01'], BODY, replace=['htp_tx_res_process_body_data_ex'])
-st('htp_connp_RES_BODY_IDENTITY_CL_KNOWN', ['C06', 'C09', 'C01'], BODY + '; end-of-body marker (NULL,0) delivered exactly when the body completes or the stream closes', replace=['htp_tx_res_process_body_data_ex'])
-st('htp_connp_RES_BODY_IDENTITY_STREAM_CLOSE', ['C06', 'C09', 'C01'], 'close-delimited body: everything available is delivered once, in place; FINALIZE only on a closed stream', replace=['htp_tx_res_process_body_data_ex'])
+st('htp_connp_RES_BODY_CHUNKED_DATA', ['C06', 'C09', 'C03', 'C01'], BODY, replace=['htp_tx_res_process_body_data_ex'])
+st('htp_connp_RES_BODY_IDENTITY_CL_KNOWN', ['C06', 'C09', 'C03', 'C01'], BODY + '; end-of-body marker (NULL,0) delivered exactly when the body completes or the stream closes', replace=['htp_tx_res_process_body_data_ex'])
+st('htp_connp_RES_BODY_IDENTITY_STREAM_CLOSE', ['C06', 'C09', 'C03', 'C01'], 'close-delimited body: everything available is delivered once, in place; FINALIZE only on a closed stream', replace=['htp_tx_res_process_body_data_ex'])
 
-st('htp_connp_RES_BODY_CHUNKED_DATA_END', ['C06', 'C09', 'C01'], 'chunk trailer line: consumes through the first LF (none skipped), every byte taken is counted in consume/stream offset/message length, DATA only with the chunk exhausted; terminates',
+st('htp_connp_RES_BODY_CHUNKED_DATA_END', ['C06', 'C09', 'C03', 'C01'], 'chunk trailer line: consumes through the first LF (none skipped), every byte taken is counted in consume/stream offset/message length, DATA only with the chunk exhausted; terminates',
    loops={'count': 1, 0: dict(
        assigns='connp->out_next_byte, connp->out_current_read_offset, connp->out_current_consume_offset, connp->out_stream_offset, connp->out_tx->response_message_len',
        inv=['connp->out_current_read_offset >= __CPROVER_loop_entry(connp->out_current_read_offset)', 'connp->out_current_read_offset <= connp->out_current_len',
@@ -48,7 +48,7 @@ UNITS.append(U(name='htp_connp_res_data', props=['C09', 'C16', 'C01'], kind='con
                             'termination of the driver loop is NOT proved here (no decreases clause): see DESIGN C09',
                             'callbacks return OK/DECLINED/STOP/ERROR only']))
 
-UNITS.append(U(name='htp_connp_RES_IDLE', props=['C04', 'C09', 'C05', 'C01'], kind='contract', src=['htp_response.c', 'htp_list.c'], enforce='htp_connp_RES_IDLE',
+UNITS.append(U(name='htp_connp_RES_IDLE', props=['C04', 'C09', 'C05', 'C10', 'C01'], kind='contract', src=['htp_response.c', 'htp_list.c'], enforce='htp_connp_RES_IDLE',
                replace=['htp_connp_tx_create/contract_site_htp_connp_tx_create', 'htp_tx_state_request_complete/contract_site2_htp_tx_state_request_complete',
                         'htp_tx_state_response_start/contract_site_htp_tx_state_response_start', 'htp_uri_alloc', 'bstr_dup_c', 'htp_log'],
                contracts_inc=INC, harness=H % 'htp_connp_RES_IDLE', defs={'quick': {'CHUNK_CAP': 4096, 'LCAP': 8}, 'thorough': {'CHUNK_CAP': 1048576, 'LCAP': 64}},
